@@ -45,6 +45,8 @@ type callee struct {
 	anchored bool
 	short    string
 	ord      int
+	argVals  []T
+	recvVal  *T
 }
 
 func (x *Exec) resolveCallee(st *State, call *ast.CallExpr) *callee {
@@ -278,6 +280,7 @@ func pack(rs []T, call *ast.CallExpr) T {
 }
 
 func (x *Exec) dispatch(st *State, call *ast.CallExpr, c *callee, recv *T, args []T) T {
+	c.argVals, c.recvVal = args, recv
 	// 1. closures: inline
 	if c.closure != nil {
 		if c.closure.lit != nil {
@@ -385,6 +388,12 @@ func (x *Exec) applyContract(st *State, ct *Contract, c *callee, recv *T, args [
 	anchor := fmt.Sprintf("call:%s@%d", short, ord)
 	env := x.calleeEnv(st, ct, sig, recv, args)
 	x.prog.usedContracts[ct] = true
+	for _, b := range ct.Binds {
+		// the callee's logical variables take their values from this call's entry state
+		v := x.specEval(st, b.Expr, env)
+		g := x.ghostGet(st, b.Name)
+		st.ghost[b.Name] = T{S: v.S, Ty: g.Ty}
+	}
 	for i, r := range ct.Requires {
 		t := x.specEval(st, r.Expr, env)
 		nm := fmt.Sprintf("%s/pre#%d", anchor, i+1)
@@ -618,6 +627,9 @@ func (x *Exec) callModifies(call *ast.CallExpr, m *modSet) {
 		return
 	}
 	pkg := x.prog.pkgByPath(ct.Pkg)
+	for _, b := range ct.Binds {
+		m.ghost[b.Name] = true
+	}
 	for _, cl := range ct.Modifies {
 		txt := cl.Text
 		switch {
@@ -1204,9 +1216,27 @@ func (x *Exec) callAnchor(st *State, c *callee, call *ast.CallExpr, fallback str
 	anchor := fmt.Sprintf("call:%s@%d", short, ord)
 	if top := x.topFrame().contract; top != nil {
 		all := append(append([]*Clause(nil), top.Asserts[anchor]...), top.Asserts["call:"+short]...)
+		if len(top.Asserts[anchor]) > 0 {
+			x.hitAnchors[anchor] = true
+		}
+		if len(top.Asserts["call:"+short]) > 0 {
+			x.hitAnchors["call:"+short] = true
+		}
 		for i, a := range all {
-			t := x.specEval(st, a.Expr, x.bodySpecEnv(st, call))
-			x.oblige(st, fmt.Sprintf("%s/assert#%d", anchor, i+1), "assert", t.S, call)
+			env := x.bodySpecEnv(st, call)
+			// the actual arguments and receiver of this call are visible as argN / recv
+			for k, av := range c.argVals {
+				env.vars[fmt.Sprintf("arg%d", k)] = av
+			}
+			if c.recvVal != nil {
+				env.vars["recv"] = *c.recvVal
+			}
+			t := x.specEval(st, a.Expr, env)
+			nm := fmt.Sprintf("%s/assert#%d", anchor, i+1)
+			if a.Name != "" {
+				nm = fmt.Sprintf("%s/assert:%s", anchor, a.Name)
+			}
+			x.oblige(st, nm, "assert", t.S, call)
 			st.assume(t.S)
 		}
 	}
